@@ -568,7 +568,7 @@ class AuditProbe(Harness):
         with AE.patched(M.kexdh, random=Rnd):
             r = AE.run_audit(M, conns)
         nets = r['net'].made
-        return {'ret': r['ret'], 'alg': has_alg_lines(r['lines']), 'nconn': len(nets), 'allclosed': all(c.closed or c.shut for c in nets), 'first_sent': [first_packet_type(c) for c in nets]}
+        return {'ret': r['ret'], 'alg': has_alg_lines(r['lines']), 'nconn': len(nets), 'allclosed': all(c.closed or c.shut for c in nets), 'starts_ok': all(first_packet_type(c) in (None, 20) for c in nets)}
 
     def check(self, inp, obs):
         st = status_of(obs['ret'])
@@ -576,7 +576,7 @@ class AuditProbe(Harness):
         if st is not None:
             yield 'report-complete-after-probe-misbehaviour', obs['alg'] and st in (0, 2, 3)
         # on every connection the first thing the tool sends after its identification string is a well-framed KEXINIT (nothing left over from an earlier, failed exchange)
-        yield 'every-connection-starts-with-a-well-framed-kexinit', all(t in (None, 20) for t in obs['first_sent'])
+        yield 'every-connection-starts-with-a-well-framed-kexinit', obs['starts_ok']
 
     def classify(self, inp, obs, label):
         r = obs['ret']
@@ -623,6 +623,44 @@ class BannerVersion(Harness):
         if isinstance(r, Exc):
             return 'banner-version(%s):%s' % (self.product, r.type)
         return label
+
+
+class KexinitTail(Harness):
+    """a correctly framed first KEXINIT whose PAYLOAD lacks its last n bytes (the first_kex_packet_follows flag and the reserved uint32 are incomplete): not a
+    well-formed handshake - status 1 and no algorithm report; the complete message is accepted."""
+    prop, ob = PROP, 'O7'
+    width = 64
+
+    def __init__(self, n):
+        self.n = n
+        self.name = 'kexinit-tail-minus-%d' % n
+
+    def params(self):
+        return {'n': self.n}
+
+    def inputs(self):
+        b = zx.fresh_bytes('ck', 1)
+        if zx.active():
+            zx.cur().assume(s_or(b[0] == 0, b[0] == 0x41))
+        return {'ck': b}
+
+    def run(self, M, inp):
+        if zx.active():
+            zx.cur().stdout = []
+        full = AE.kexinit_payload(['curve25519-sha256'], ['unknown-key-type'], ['aes128-ctr'], ['hmac-sha2-256'])
+        full = full[:1] + inp['ck'] + full[2:]          # one (rendered) cookie byte is symbolic
+        pkt = AE.frame(full[:len(full) - self.n])
+        conns = [AE.Conn([BANNER, pkt], 'close')] + [AE.Conn([BANNER, pkt], 'close') for _ in range(3)]
+        r = AE.run_audit(M, conns)
+        return {'ret': r['ret'], 'alg': has_alg_lines(r['lines'])}
+
+    def check(self, inp, obs):
+        st = status_of(obs['ret'])
+        yield 'documented-status', st is not None
+        if self.n == 0:
+            yield 'complete-message-accepted', obs['alg'] and st in (0, 2, 3)
+        else:
+            yield 'message-without-its-last-bytes-is-not-a-handshake', st == 1 and not obs['alg']
 
 
 class PaddingCut(Harness):
@@ -730,6 +768,8 @@ def tasks(tier):
             T.append(BannerVersion(prod, n))
     for k in ((0, 1, 4, 8) if q else range(0, 9)):
         T.append(PaddingCut(k))
+    for n in range(0, 6):
+        T.append(KexinitTail(n))
     if not q:
         for k in (1, 5):
             T.append(PaddingCut(k, 12))
@@ -758,6 +798,8 @@ def harness_by_name(name, params):
         return AuditFirstConn(params['n'], params['sshv'], params['end'], params['framed'], params.get('dom', 'any'))
     if k.startswith('banner-version'):
         return BannerVersion(params['product'], params['n'])
+    if k.startswith('kexinit-tail'):
+        return KexinitTail(params['n'])
     if k.startswith('padding-cut'):
         return PaddingCut(params['k'], params.get('padlen', 8))
     if k.startswith('audit-probe'):
